@@ -66,6 +66,14 @@ type runResult struct {
 	Harnesses []harnessResult `json:"harnesses"`
 }
 
+var verboseStacks bool
+var stackSeen sync.Map
+
+func seenStack(r string) bool {
+	_, loaded := stackSeen.LoadOrStore(r, true)
+	return loaded
+}
+
 func newInterp(p *program) *interpreter {
 	in := &interpreter{prog: p.prog, sizes: stdSizes, maxSteps: 200_000_000}
 	if rp := p.prog.ImportedPackage("errors"); rp != nil {
@@ -99,6 +107,7 @@ func main() {
 	trace := fs.Bool("trace", false, "trace instructions (replay)")
 	params := fs.String("params", "", "harness parameters k=v,k=v (zzParam)")
 	fs.Parse(os.Args[2:])
+	verboseStacks = *verbose
 	for _, kv := range strings.Split(*params, ",") {
 		if k, v, ok := strings.Cut(kv, "="); ok {
 			var n int
@@ -354,6 +363,9 @@ func (w *worker) runPath(ex *explorer, fn *ssa.Function, prefix []decision, repl
 				}
 			case unsupported:
 				res.end = "unsupported:" + r.reason
+				if verboseStacks && !seenStack(r.reason) {
+					fmt.Fprintf(os.Stderr, "unsupported: %s%s\n", r.reason, r.stack)
+				}
 			case targetPanic:
 				res.end = "panic:" + r.String()
 				ps.recordViolation("panic", "no-panic", r.String(), ps.model(nil))
